@@ -12,6 +12,8 @@ tree stream and its monitors (see docs/C10.md).
 -/
 import Mistral.Lemmas.TreePause
 import Mistral.Lemmas.TreeProp
+import Mistral.Lemmas.TreeFollow
+import Mistral.Lemmas.TreeResume
 
 namespace Mistral.Props.C10Tree
 open Mistral Mistral.Tree
@@ -100,20 +102,10 @@ theorem pause_request_is_good (c : Cfg) (w : World) (a : Nat) : Good w (step c w
   good_step c w (.pause a)
 
 
-/-- "the workflow and its running sub-workflows are PAUSED" at full strength (every RUNNING execution below the
-    paused one) is FALSE of the code: pause_workflow only descends into sub-workflows that are not completed;
-    after stop(ERROR) of the middle execution (which does not touch its sub-workflows) the pause of the root
-    leaves the grandchild RUNNING.  Replayed on the real engine: corpus/C10/tree_pause_skips.json (known
-    finding). -/
-theorem pause_subtree_full_fails :
-    ¬ (∀ (c : Cfg) (evs : List Event) (a x : Nat),
-        below (run c evs) a (run c evs).execs.length x = true → stateOf (run c evs) x = some .RUNNING →
-        stateOf (run c evs) a = some .RUNNING →
-        stateOf (step c (run c evs) (.pause a)) x = some .PAUSED) := by
-  intro h
-  have := h chain3 (chain3Up ++ [.stop 1 .ERROR "m"]) 0 2 (by decide +kernel) (by decide +kernel) (by decide +kernel)
-  revert this
-  decide +kernel
+/-- the former witness of `pause_subtree_full_fails` (stop(ERROR) of the middle execution, pause of the root): since
+    repo patch 23 the grandchild below the finished child is paused too -/
+example : ((step chain3 (run chain3 (chain3Up ++ [.stop 1 .ERROR "m"])) (.pause 0)).execs.map (·.state)) =
+    [.PAUSED, .ERROR, .PAUSED] := by decide +kernel
 
 /-- the whole transaction of a resume request (with everything it propagates to) never touches a finished
     execution either (needs the re-check of repo patch 20) -/
@@ -171,24 +163,28 @@ theorem shape_reachable (c : Cfg) (evs : List Event) : Shape (run c evs) :=
   ⟨fun i e h => ((allJ_reachable c evs).1 i e h).2.2, (allJ_reachable c evs).2.2.1⟩
 
 /-- For EVERY reachable tree: a pause request on an execution that is not finished is acknowledged (the
-    transaction does not raise), and after it the execution itself and every execution that `pause_workflow`
-    reaches from it through executions that are not completed (`Chain`: sub-workflows of its tasks, their
-    sub-workflows, ... at any depth `d` below the nesting bound of the model) is PAUSED — in the SAME
-    transaction, whatever the kinds of the calling tasks. -/
-theorem pause_propagates (c : Cfg) (evs : List Event) (a : Nat) (e : Exec)
-    (he : (run c evs).execs[a]? = some e) (hc : isCompleted e.state = false) (d y : Nat)
-    (hd : d < fuelOf (run c evs)) (hch : Chain (run c evs) d a y) :
+    transaction does not raise), and after it EVERY execution at or below it that is not completed — at any
+    depth, whatever the states of the executions in between and the kinds of the calling tasks — is PAUSED, in
+    the SAME transaction.  (`below`: the parent links walked upwards, as in C11Tree.cancel_subtree.) -/
+theorem pause_subtree (c : Cfg) (evs : List Event) (a : Nat) (e : Exec)
+    (he : (run c evs).execs[a]? = some e) (hc : isCompleted e.state = false) (y : Nat) (ey : Exec)
+    (hy : (run c evs).execs[y]? = some ey) (hb : below (run c evs) a (run c evs).execs.length y = true)
+    (hu : isCompleted ey.state = false) :
     stateOf (step c (run c evs) (.pause a)) y = some .PAUSED := by
   have hok := (pause_ok c (fuelOf (run c evs))).1 (run c evs) a (shape_reachable c evs)
-  have hnr := hok.noraise e he hc
+  have hnr := hok.noraise ⟨e, he, hc⟩
+  obtain ⟨d, hd, hdesc⟩ := desc_of_below (run c evs) a _ y hb
   simp only [step, hnr, Bool.false_eq_true, if_false]
-  exact hok.paused d y hd hch
+  exact hok.paused d y (by simp only [fuelOf]; omega) hdesc ⟨ey, hy, hu⟩
 
-/-- ... in particular the paused execution itself (depth 0) -/
+/-- ... in particular the paused execution itself -/
 theorem pause_acknowledged_tree (c : Cfg) (evs : List Event) (a : Nat) (e : Exec)
     (he : (run c evs).execs[a]? = some e) (hc : isCompleted e.state = false) :
-    stateOf (step c (run c evs) (.pause a)) a = some .PAUSED :=
-  pause_propagates c evs a e he hc 0 a (by simp [fuelOf]) ⟨rfl, e, he, hc⟩
+    stateOf (step c (run c evs) (.pause a)) a = some .PAUSED := by
+  have hok := (pause_ok c (fuelOf (run c evs))).1 (run c evs) a (shape_reachable c evs)
+  have hnr := hok.noraise ⟨e, he, hc⟩
+  simp only [step, hnr, Bool.false_eq_true, if_false]
+  exact hok.paused 0 a (by simp [fuelOf]) rfl ⟨e, he, hc⟩
 
 /-- the pause transaction creates no execution and no task, keeps every link, and changes execution states
     only from RUNNING to PAUSED (in every reachable state) -/
@@ -196,13 +192,63 @@ theorem pause_only_pauses (c : Cfg) (evs : List Event) (a : Nat) (e : Exec)
     (he : (run c evs).execs[a]? = some e) (hc : isCompleted e.state = false) :
     PMono (run c evs) (step c (run c evs) (.pause a)) := by
   have hok := (pause_ok c (fuelOf (run c evs))).1 (run c evs) a (shape_reachable c evs)
-  have hnr := hok.noraise e he hc
+  have hnr := hok.noraise ⟨e, he, hc⟩
   simp only [step, hnr, Bool.false_eq_true, if_false]
   exact hok.mono
 
-/-- non-vacuity: in the three nested executions the innermost one is reached from the root at depth 2 -/
-example : Chain (run chain3 chain3Up) 2 0 2 :=
-  ⟨1, by decide +kernel, ⟨_, rfl, by decide +kernel⟩, 2, by decide +kernel, ⟨_, rfl, by decide +kernel⟩, rfl, _, rfl,
-   by decide +kernel⟩
+/-- non-vacuity: in the three nested executions the innermost one is below the root -/
+example : below (run chain3 chain3Up) 0 (run chain3 chain3Up).execs.length 2 = true := by decide +kernel
+
+
+/-- "... are PAUSED" together with the tasks that wait for them — for EVERY reachable tree: if the pause request on
+    an unfinished execution `a` pauses an execution `y` at or below `a` that was RUNNING, then (the workflow that
+    owns the calling task `t` of `y` not being completed)
+    * a plain calling task that was RUNNING is PAUSED in the SAME transaction, and
+    * for a with-items calling task the `_on_action_update` job of `y` is pending after the transaction. -/
+theorem pause_calling_task (c : Cfg) (evs : List Event) (a : Nat) (e : Exec)
+    (he : (run c evs).execs[a]? = some e) (hc : isCompleted e.state = false) (y : Nat) (ey : Exec)
+    (hy : (run c evs).execs[y]? = some ey) (hb : below (run c evs) a (run c evs).execs.length y = true)
+    (hr : ey.state = .RUNNING) (t : Nat) (tk : Task) (pe : Exec) (hpar : ey.parent = some t)
+    (htk : (run c evs).tasks[t]? = some tk) (hpe : (run c evs).execs[tk.wf]? = some pe)
+    (hl : isCompleted pe.state = false) :
+    (isWithItemsTask c (run c evs) t = false → tk.state = .RUNNING →
+       taskState (step c (run c evs) (.pause a)) t = some .PAUSED) ∧
+    (isWithItemsTask c (run c evs) t = true →
+       Item.jobChildUpdate y ∈ (step c (run c evs) (.pause a)).pending) := by
+  have hp := pause_subtree c evs a e he hc y ey hy hb (by rw [hr]; decide)
+  have hok := (pause_ok c (fuelOf (run c evs))).1 (run c evs) a (shape_reachable c evs)
+  have hf := (follow_ok c (fuelOf (run c evs))).1 (run c evs) a (shape_reachable c evs)
+  have hnr := hok.noraise ⟨e, he, hc⟩
+  simp only [step, hnr, Bool.false_eq_true, if_false] at hp ⊢
+  obtain ⟨e', hy', _, _⟩ := hok.mono.execs y ey hy
+  have hs' : e'.state = .PAUSED := by simpa [stateOf, hy'] using hp
+  exact hf.follow y ey e' t tk pe hy hy' hr hs' hpar htk hpe hl
+
+/-- non-vacuity: pausing the root of the three nested executions pauses the two calling tasks -/
+example : (taskState (step chain3 (run chain3 chain3Up) (.pause 0)) 0,
+           taskState (step chain3 (run chain3 chain3Up) (.pause 0)) 1) = (some .PAUSED, some .PAUSED) := by
+  decide +kernel
+
+
+/-! ### resume -/
+
+/-- For EVERY tree and state (no reachability needed): a resume request never raises and never pauses anything —
+    an execution that is not PAUSED before the transaction (with everything it propagates to) is not PAUSED after
+    it. -/
+theorem resume_pauses_nothing (c : Cfg) (w : World) (a : Nat) : NP w (step c w (.resume a)) := by
+  obtain ⟨h1, h2⟩ := (resume_np c (fuelOf w)).1 w a
+  simp only [step, h2, Bool.false_eq_true, if_false]
+  exact h1
+
+/-- ... and the resumed execution leaves PAUSED: after a resume request for a PAUSED execution it is RUNNING, or
+    has completed in the same transaction (all its tasks had finished while it was paused). -/
+theorem resume_acknowledged_tree (c : Cfg) (w : World) (a : Nat) (e : Exec) (he : w.execs[a]? = some e)
+    (hp : e.state = .PAUSED) :
+    ∃ e', (step c w (.resume a)).execs[a]? = some e' ∧ e'.state ≠ .PAUSED := by
+  have h2 := ((resume_np c (fuelOf w)).1 w a).2
+  simp only [step, h2, Bool.false_eq_true, if_false]
+  have hf : fuelOf w = (4 * w.execs.length + 7) + 1 := rfl
+  rw [hf]
+  exact resume_leaves_paused c _ w a e he (by rw [hp]; decide)
 
 end Mistral.Props.C10Tree
